@@ -1031,6 +1031,10 @@ def histories(tier, seed):
             obs = list(ops_obs)
             rng.shuffle(obs)
             R.run_history(pair, [(1, a)], [(0, x) for x in obs[: (n_obs if thorough else 10)]])
+    # ---- 2b. the SAME call on another grid first (state shared between Grid objects: class-level containers, module caches)
+    for pi, pair in enumerate(pairs[: (len(pairs) if thorough else 2)]):
+        for a in [o for o in ops if o.prop is None]:
+            R.run_history(pair, [(1, a)], [(0, a)])
     # ---- 3. exact (a, X) singles and (a, b, X): fresh grids for every observation
     if thorough:
         for a in ops:
